@@ -2,6 +2,7 @@
 import random
 
 from . import engdrv as D
+from . import absmap as A
 
 ALLBITS = ["ENCRYPT", "DECRYPT", "SIGN", "VERIFY", "MAC_GENERATE", "WRAP_KEY", "DERIVE_KEY", "EXPORT"]
 # every other member of the usage mask enumeration: bits that grant none of the operations the server performs
@@ -135,6 +136,9 @@ class Gen(object):
         elif t in ("PublicKey", "PrivateKey"):
             obj.update(alg="RSA", len=1024, fmt="PKCS_1" if t == "PublicKey" else "PKCS_8",
                        val="rsapub" if t == "PublicKey" else "rsapriv")
+        if t == "SplitKey" and self.r.random() < 0.3:
+            # a prime field size (a Big Integer): small, or beyond 64 bits
+            obj.update(prime=A.SMALL_PRIME if self.r.random() < 0.5 else A.BIG_PRIME, smethod="POLYNOMIAL_SHARING_PRIME_FIELD")
         if "alg" in obj and self.r.random() < 0.06:
             # the key block's optional fields: algorithm / length left out
             obj.pop(self.r.choice(["alg", "len"]))
